@@ -18,7 +18,8 @@ LETTER = {"Display": "", "Debug": "?", "LowerDebug": "x?", "UpperDebug": "X?", "
           "UpperHex": "X", "Pointer": "p", "Binary": "b", "LowerExp": "e", "UpperExp": "E"}
 ATTR = {"Display": "display", "Debug": "debug", "Octal": "octal", "LowerHex": "lower_hex", "UpperHex": "upper_hex",
         "Pointer": "pointer", "Binary": "binary", "LowerExp": "lower_exp", "UpperExp": "upper_exp"}
-MOD = {"none": "", "ws": "", "width": "5", "fill": "*<", "sign": "+", "alt": "#", "zero": "0", "prec": ".2"}
+MOD = {"none": "", "ws": "", "width": "5", "fill": "*<", "left": "<", "center": "^", "right": ">", "sign": "+",
+       "minus": "-", "alt": "#", "zero": "0", "prec": ".2"}
 
 PRELUDE = "use core::fmt;\n#[derive(Clone, Copy)] pub struct P(pub u8);\n" + "".join(f'''
 impl fmt::{t} for P {{ fn fmt(&self, f: &mut fmt::Formatter<'_>) -> fmt::Result {{ echo(self.0, "{t}", f) }} }}'''
